@@ -1,8 +1,19 @@
 #!/bin/sh
-# usage: build.sh c11   -- builds ocaml/c11/driver from the extracted model + common glue
+# usage: build.sh c11   -- builds ocaml/c11/driver from the extracted model + common glue.
+# Builds in a private temporary directory and installs the binary atomically, so concurrent runs
+# of the same check never see a half-written driver; skips the build when the driver is newer
+# than all of its inputs.
 set -e
-cd "$(dirname "$0")/$1"
-cat ../common/conv.ml driver.ml > main.ml
-ocamlfind ocamlopt -O3 -w -a model.mli model.ml main.ml -o driver 2>/dev/null || \
-ocamlfind ocamlopt -w -a model.mli model.ml main.ml -o driver
-rm -f main.ml
+d="$(cd "$(dirname "$0")" && pwd)/$1"
+cd "$d"
+if [ -x driver ] && [ driver -nt model.ml ] && [ driver -nt driver.ml ] && [ driver -nt ../common/conv.ml ] && [ driver -nt model.mli ]; then
+  exit 0
+fi
+t=$(mktemp -d "${TMPDIR:-/tmp}/ocamlbuild.XXXXXX")
+trap 'rm -rf "$t"' EXIT
+cp model.ml model.mli "$t/"
+cat ../common/conv.ml driver.ml > "$t/main.ml"
+( cd "$t" && { ocamlfind ocamlopt -O3 -w -a model.mli model.ml main.ml -o driver 2>/dev/null || \
+               ocamlfind ocamlopt -w -a model.mli model.ml main.ml -o driver; } )
+mv -f "$t/driver" "$d/driver.new.$$"
+mv -f "$d/driver.new.$$" "$d/driver"
